@@ -10,6 +10,7 @@ import (
 	"fmt"
 	"strings"
 	"sync"
+	"time"
 
 	"ergo.services/ergo/gen"
 )
@@ -52,6 +53,9 @@ func runC03(c *Ctx) {
 		for i := range senders {
 			_, senders[i], _ = k.Spawn(fmt.Sprintf("S%d", i), false, gen.ProcessOptions{}, "")
 		}
+		_, deadPid, _ := k.Spawn("dead", false, gen.ProcessOptions{}, "")
+		k.Node.Kill(deadPid)
+		waitUntilGone(k, deadPid)
 		// victims the receiver monitors: their death produces down notifications (system queue)
 		nv := c.Rng.Intn(3)
 		victims := make([]gen.PID, nv)
@@ -99,6 +103,8 @@ func runC03(c *Ctx) {
 			o := op{sender: c.Rng.Intn(ns + 1), addr: c.Rng.Intn(3)}
 			x := c.Rng.Intn(100)
 			switch {
+			case x < 6 && o.sender < ns:
+				o.kind = "f"
 			case x < 35:
 				o.kind = "n"
 			case x < 60:
@@ -131,6 +137,13 @@ func runC03(c *Ctx) {
 				to = alias
 			}
 			switch o.kind {
+			case "f":
+				// a priority send that fails (target gone): must not change how the sender's later plain sends are queued
+				pr := gen.MessagePriorityHigh
+				if o.seq%2 == 0 {
+					pr = gen.MessagePriorityMax
+				}
+				k.Exec(senders[o.sender], func(p *Puppet) { p.SendWithPriority(deadPid, pl, pr) })
 			case "x":
 				k.Exec(senders[o.sender], func(p *Puppet) { p.SendExit(rpid, fmt.Errorf("x|%d|%d", o.sender, o.seq)) })
 			case "d":
@@ -140,13 +153,21 @@ func runC03(c *Ctx) {
 			default:
 				if o.sender == ns {
 					k.Node.SendWithPriority(to, pl, prio)
+				} else if o.kind == "n" && o.seq%2 == 1 {
+					// plain Send: the process's own (default: normal) priority
+					k.Exec(senders[o.sender], func(p *Puppet) { p.Send(to, pl) })
 				} else {
 					k.Exec(senders[o.sender], func(p *Puppet) { p.SendWithPriority(to, pl, prio) })
 				}
 			}
 		}
 		var opstr []string
+		nreal := 0
 		for _, o := range ops {
+			if o.kind == "f" {
+				continue
+			}
+			nreal++
 			opstr = append(opstr, fmt.Sprintf("P%d.%s.%d", o.sender, o.kind, o.seq))
 		}
 		switch mode {
@@ -193,8 +214,8 @@ func runC03(c *Ctx) {
 		r.Count(fmt.Sprintf("mode%d", mode))
 		rp := map[string]interface{}{"mode": mode, "ops": strings.Join(opstr, ","), "handled": strings.Join(got, ",")}
 		// ---- oracles ---------------------------------------------------------------------------
-		if len(got) != len(ops) {
-			r.Violation("C03/count", fmt.Sprintf("%d messages enqueued, %d handled", len(ops), len(got)), rp)
+		if len(got) != nreal {
+			r.Violation("C03/count", fmt.Sprintf("%d messages enqueued, %d handled", nreal, len(got)), rp)
 		}
 		// per-(sender,class) FIFO
 		last := map[string]int{}
@@ -225,7 +246,7 @@ func runC03(c *Ctx) {
 			}
 		}
 		if mode == 0 {
-			line := "run " + strings.Join(opstr, ",") + strings.Repeat(",K", len(ops))
+			line := "run " + strings.Join(opstr, ",") + strings.Repeat(",K", nreal)
 			lines = append(lines, line)
 			wants = append(wants, strings.Join(got, ","))
 			replays = append(replays, rp)
@@ -241,6 +262,7 @@ func runC03(c *Ctx) {
 		k.puppets = map[gen.PID]*Puppet{}
 		k.mu.Unlock()
 	}
+	c03logger(c, &lines, &wants, &replays)
 	outs, err := ModelParallel("mailbox", lines, 8)
 	if err != nil {
 		r.Disagree("mailbox.driver", err.Error(), nil)
@@ -303,4 +325,116 @@ func mergeC03(recv *Puppet, hmu *sync.Mutex, handled *[]c03payload, victims []ge
 		}
 	}
 	return out
+}
+
+// c03logger: the receiver is registered as a logger and is parked INSIDE HandleLog; more log messages and messages of
+// the other classes are enqueued meanwhile. After the release the higher classes must be handled before the remaining
+// log messages ("... then log messages"), one message per round of the dequeue loop.
+func c03logger(c *Ctx, lines, wants *[]string, replays *[]interface{}) {
+	r := c.R
+	n, err := startQuietNodeOpts("c03log", func(o *gen.NodeOptions) { o.Log.Level = gen.LogLevelInfo })
+	if err != nil {
+		r.Disagree("c03.lognode", err.Error(), nil)
+		return
+	}
+	defer n.StopForce()
+	k := &K4{Node: n, puppets: map[gen.PID]*Puppet{}}
+	rounds := c.N(40, 1500)
+	for it := 0; it < rounds; it++ {
+		recv, rpid, err := k.Spawn("L", true, gen.ProcessOptions{}, "")
+		if err != nil {
+			return
+		}
+		var mu sync.Mutex
+		var got []string
+		entered := make(chan struct{}, 1)
+		gate := make(chan struct{})
+		recv.onLog = func(p *Puppet, m gen.MessageLog) error {
+			if !strings.HasPrefix(m.Format, "c03|") {
+				return nil
+			}
+			var seq int
+			fmt.Sscanf(m.Format, "c03|%d", &seq)
+			mu.Lock()
+			got = append(got, fmt.Sprintf("9.g.%d", seq))
+			mu.Unlock()
+			if seq == 0 {
+				entered <- struct{}{}
+				<-gate
+			}
+			return nil
+		}
+		recv.onMsg = func(p *Puppet, from gen.PID, m any) error {
+			if pl, ok := m.(c03payload); ok {
+				mu.Lock()
+				got = append(got, fmt.Sprintf("%d.%s.%d", pl.Sender, pl.Kind, pl.Seq))
+				mu.Unlock()
+			}
+			return nil
+		}
+		lname := fmt.Sprintf("c03logger%d", it)
+		if err := n.LoggerAddPID(rpid, lname); err != nil {
+			r.Count("inconclusive:logger")
+			n.Kill(rpid)
+			continue
+		}
+		n.Log().Info("c03|0")
+		select {
+		case <-entered:
+		case <-time.After(2 * time.Second):
+			r.Count("inconclusive:logger-not-entered")
+			n.LoggerDeletePID(rpid)
+			n.Kill(rpid)
+			continue
+		}
+		ops := []string{"P9.g.0", "K"}
+		nops := 3 + c.Rng.Intn(10)
+		lseq := 1
+		mseq := map[string]int{}
+		for i := 0; i < nops; i++ {
+			if c.Rng.Chance(2, 5) {
+				n.Log().Info(fmt.Sprintf("c03|%d", lseq))
+				ops = append(ops, fmt.Sprintf("P9.g.%d", lseq))
+				lseq++
+				continue
+			}
+			kind := []string{"n", "h", "m"}[c.Rng.Intn(3)]
+			prio := map[string]gen.MessagePriority{"n": gen.MessagePriorityNormal, "h": gen.MessagePriorityHigh, "m": gen.MessagePriorityMax}[kind]
+			n.SendWithPriority(rpid, c03payload{5, kind, mseq[kind]}, prio)
+			ops = append(ops, fmt.Sprintf("P5.%s.%d", kind, mseq[kind]))
+			mseq[kind]++
+		}
+		close(gate)
+		k.Quiesce()
+		time.Sleep(300 * time.Microsecond)
+		mu.Lock()
+		g := strings.Join(got, ",")
+		mu.Unlock()
+		for i := 0; i < nops; i++ {
+			ops = append(ops, "K")
+		}
+		rp := map[string]interface{}{"mode": "logger", "ops": strings.Join(ops, ","), "handled": g}
+		*lines = append(*lines, "run "+strings.Join(ops, ","))
+		*wants = append(*wants, g)
+		*replays = append(*replays, rp)
+		// oracle: after the first (parked) log message, no log message may be handled before a queued message of a higher class
+		seenLog := false
+		for i, x := range got {
+			if i == 0 {
+				continue
+			}
+			isLog := strings.Contains(x, ".g.")
+			if isLog {
+				seenLog = true
+			} else if seenLog {
+				r.Violation("C03/log-before-higher-class", "a queued log message was handled before a queued message of a higher class (the dequeue loop must restart from the urgent queue after every log message)", rp)
+				break
+			}
+		}
+		r.Case("logger|"+strings.Join(ops, ","), lseq > 1 && len(mseq) > 0)
+		r.Count("mode-logger")
+		n.LoggerDeletePID(rpid)
+		n.Kill(rpid)
+		k.resetPuppets()
+	}
 }
